@@ -17,6 +17,8 @@ static int nsizes;
 #define MAXN 10
 static struct as_shadow snapS[MAXN + 1]; /* snapS[k]: state after k events */
 static int snapNextId[MAXN + 1];
+static int snapCreated[MAXN + 1]; /* arenas created when position k was first reached */
+static uint64_t moved_cases;
 
 static void shadow_free(struct as_shadow *s)
 {
@@ -79,6 +81,36 @@ static int same_as_snapshot(int k, int minborn, const char *when)
 	return as_check_ckpt_size();
 }
 
+/* The state handed on after restore + coast forward is the state after position q of the first run, addresses included:
+ * the blocks allocated by the still-valid events r..q-1 (born in [r, q)) are the same memory the first run gave them - an
+ * event processed before the rollback may have sent a pointer to them to its own LP.  Reported separately from the checks
+ * above so that the one way the unchanged allocator breaks this (DESIGN.md 5, F-C05-coast-forward-moves-blocks) can be told
+ * from any other. */
+static void same_addresses_after_coast_forward(int q, int r)
+{
+	const struct as_shadow *s = &snapS[q];
+	for(int i = 0; i < s->n && i < SHD.n; ++i) {
+		if(s->b[i].born < r || SHD.b[i].p == s->b[i].p)
+			continue;
+		moved_cases++;
+		/* which arena serves it now: one that exists only since after the restored checkpoint? */
+		int slot = (int)(((const char *)SHD.b[i].p - (const char *)as_pool) / (ptrdiff_t)sizeof(struct buddy_state));
+		int late = 0;
+		for(int k = snapCreated[r]; k < as_created; ++k)
+			late |= as_slot_order[k] == slot;
+		if(late)
+			sx_violation("a block allocated by a still-valid event has another address after restore + coast forward: the silent "
+				     "re-execution was served by an arena created after the restored checkpoint",
+			    "rollback to position %d from checkpoint %d: block #%d is at %p, the first run had it at %p; ops: %s", q, r, s->b[i].id,
+			    (void *)SHD.b[i].p, (void *)s->b[i].p, as_trace);
+		else
+			sx_violation("a block allocated by a still-valid event has another address after restore + coast forward",
+			    "rollback to position %d from checkpoint %d: block #%d is at %p, the first run had it at %p; ops: %s", q, r, s->b[i].id,
+			    (void *)SHD.b[i].p, (void *)s->b[i].p, as_trace);
+		return;
+	}
+}
+
 /* execute event i forward (first run or re-execution), checkpoint per interval */
 static unsigned ck_rem;
 static int last_restored;
@@ -93,6 +125,8 @@ static int forward_event(const struct op *ev, int i, unsigned c, int first_run)
 	shadow_free(&snapS[i + 1]);
 	shadow_copy(&snapS[i + 1], &SHD);
 	snapNextId[i + 1] = as_next_id;
+	if(first_run)
+		snapCreated[i + 1] = as_created;
 	if(i == 0 || ++ck_rem >= c) {
 		ck_rem = 0;
 		as_tr("K%d ", i + 1);
@@ -104,6 +138,7 @@ static int forward_event(const struct op *ev, int i, unsigned c, int first_run)
 /* newest checkpoint position <= q, per the interval schedule actually taken */
 static int ck_positions[MAXN + 2], nckp;
 
+static int first_rollback;
 static int rollback_to(const struct op *ev, int q, const char *label)
 {
 	as_tr("|RB%d ", q);
@@ -139,6 +174,8 @@ static int rollback_to(const struct op *ev, int q, const char *label)
 	}
 	if(!same_as_snapshot(q, (int)r, label))
 		return 0;
+	if(first_rollback)
+		same_addresses_after_coast_forward(q, (int)r);
 	shadow_free(&snapS[q]);
 	shadow_copy(&snapS[q], &SHD);
 	return 1;
@@ -159,7 +196,10 @@ static void scenario(const struct op *ev, int n, unsigned c, int q, int q2)
 	}
 	if(as_refused)
 		return;
-	if(!rollback_to(ev, q, "rollback reached"))
+	first_rollback = 1;
+	int okrb = rollback_to(ev, q, "rollback reached");
+	first_rollback = 0;
+	if(!okrb)
 		return;
 	sx_transitions++;
 	int arenas_grown = (int)array_count(as_lp.mm_state.buddies) > 1;
@@ -252,7 +292,7 @@ int main(int argc, char **argv)
 	enumerate(ev, 0);
 	char extra[300];
 	snprintf(extra, sizeof extra, "\"events\": %d, \"arena_bytes\": %u, \"block_bytes\": %u, \"max_arenas\": %d, \"placement\": %d, "
-				      "\"intervals\": %u, \"shard\": \"%u/%u\"",
-	    N, ARENA_SZ, BLK_SZ, as_max_arenas, perm, maxc, shard_i, shard_n);
+				      "\"intervals\": %u, \"shard\": \"%u/%u\", \"coast_forward_moved_blocks\": %llu",
+	    N, ARENA_SZ, BLK_SZ, as_max_arenas, perm, maxc, shard_i, shard_n, (unsigned long long)moved_cases);
 	return sx_report("s_ckpt", 1, extra);
 }
